@@ -50,7 +50,7 @@ class Region:
             for kv in (parts[3].split() if len(parts) > 3 else []):
                 k, _, v = kv.partition("=")
                 self.opts[k] = v
-            self.name = self.opts.get("lift") or (
+            self.name = self.opts.get("derive_name") or self.opts.get("lift") or (
                 (self.container.replace("impl ", "").replace(" ", "_") + "::" if self.container != "-" else "") + self.fn)
         elif kind == "struct":
             parts = [p.strip() for p in header.split("|")]
@@ -134,6 +134,70 @@ def repo_fn_tokens(repo, reg, log):
     loc = (reg.rfile, X.line_of(src, toks[start].start), X.line_of(src, toks[bc].end))
     applied = []
     o = reg.opts
+    if "derive_site" in o:
+        # R11 closure specialisation: this function (e.g. area::calc, generic over a FnMut parameter) is specialised
+        # to the closure passed at one call site: the closure parameter is dropped, the variables the closure
+        # captures become parameters (names/types given in the contract header), and every call `pop()` in the body
+        # is replaced by the closure's body taken from the call site.
+        sfile, scont, sfn = o["derive_site"].split(":")
+        ssrc, stoks = X.file_tokens(repo, sfile)
+        if scont == "-":
+            slo, shi = 0, len(stoks)
+        else:
+            slo, shi = X.find_container(stoks, scont)
+        s0, sbo, sbc = X.find_fn(stoks, slo, shi, sfn)
+        site_body = [t.text for t in stoks[sbo:sbc + 1]]
+        _, c, closure_body = X.rw_closure_call(site_body, reg.fn, "__x", "")
+        if c != 1 or closure_body is None:
+            raise AnchorLost("derive: call of %s with a closure not found exactly once in %s" % (reg.fn, sfn))
+        for pair in [p for p in o.get("derive_subst", "").split(";") if p]:
+            a, b = pair.split("=>")
+            closure_body, _ = X.rw_patterns(closure_body, [(a.replace("_", " "), b.replace("_", " "))])
+        sig, body = tl[:body_open], tl[body_open:]
+        k = sig.index("fn")
+        lp = k + 1
+        while sig[lp] != "(":
+            lp += 1
+        rp = X._close(sig, lp)
+        params, cur, d = [], [], 0
+        for t in sig[lp + 1:rp]:
+            if t in ("(", "[", "<"):
+                d += 1
+            elif t in (")", "]", ">"):
+                d -= 1
+            if t == "," and d == 0:
+                params.append(cur)
+                cur = []
+            else:
+                cur.append(t)
+        if cur:
+            params.append(cur)
+        drop = o["derive_drop"]
+        params = [p for p in params if drop not in p[:2]]
+        newparams = []
+        for p in params:
+            newparams += p + [","]
+        newparams += X.T(o["derive_params"].replace("~", " "))
+        ret = sig[rp + 1:]
+        if "where" in ret:
+            ret = ret[:ret.index("where")]
+        sig = ["fn", o["derive_name"]] + X.T(o.get("derive_generics", "").replace("~", " ")) + ["("] + newparams + [")"] + ret \
+            + X.T(o.get("derive_where", "").replace("~", " "))
+        # substitute `drop ( )` by the closure body
+        nb = []
+        i = 0
+        cnt = 0
+        while i < len(body):
+            if body[i] == drop and body[i + 1:i + 3] == ["(", ")"]:
+                nb += closure_body
+                i += 3
+                cnt += 1
+            else:
+                nb.append(body[i])
+                i += 1
+        tl = sig + nb
+        body_open = len(sig)
+        applied.append(("closure_specialisation", cnt))
     if "lift" in o:
         # drop visibility, rename fn, rename self
         sig = tl[:body_open]
@@ -166,9 +230,14 @@ def repo_fn_tokens(repo, reg, log):
     for rw in [r for r in o.get("rw", "").split(",") if r]:
         f = {"forcont": X.rw_for_continue, "narrow": X.rw_narrow_collect, "breakval": X.rw_break_value,
              "charsenum": X.rw_chars_enumerate, "revcollect": X.rw_rev_collect,
-             "charrange": X.rw_range_contains, "strplumb": X.rw_str_plumbing}[rw]
+             "charrange": X.rw_range_contains, "strplumb": X.rw_str_plumbing, "io": X.rw_io,
+             "charsrev": X.rw_chars_rev}[rw]
         body, c = f(body)
         applied.append((rw, c))
+    if "closure" in o:
+        callee, newname, args = o["closure"].split(":")
+        body, c, _ = X.rw_closure_call(body, callee, newname, args.replace("~", " "))
+        applied.append(("closure_call", c))
     if "ops" in o:
         body, c = X.rw_ref_ops(body, o["ops"])
         applied.append(("R1_ref_ops", c))
